@@ -130,7 +130,7 @@ ASSUMPTIONS = [
     'R5: the text handed to write!(f, "{}", ..) is what Display prints; R21: trait methods verified as inherent methods; R25: a call nested in a format! argument is bound to a local first',
 ]
 NOT_DECIDED = {'C07': ['the C side: decQuadToString / decQuadFromString themselves (A-C), so "reading the text back gives an equal number" and "a literal of up to 34 digits evaluates to exactly the value it denotes" rest on the bounded stand-in',
-                       'the numeric arms of Lexer::read_next_token and build_numeric (digits "." digits handed to FromStr): bounded stand-in only',
+                       'the numeric arms of Lexer::read_next_token and build_numeric are under contract in units lexer and numlit; that the parser hands the token to build_numeric unchanged is wiring',
                        'non-finite values (the property is about finite numbers; C02 decides that no operation hands one out, with its known findings)'],
                'C18': ['serves the number leaf of the JSON rendering only (unit dto / the JSON stand-ins decide the rest)']}
 
